@@ -44,7 +44,9 @@ Definition mode_ok (documented : list string) (m : mode_obs) : Prop :=
 Definition phase_ok (i : inventory) (p : phase_inv) : Prop :=
   agree (pi_accepted p) (pi_help_struct p) /\
   (forall n, In n (pi_accepted p) -> has_successful_run (inv_requests i) (request_for_instruction (pi_name p) n)) /\
-  (forall m, In m (pi_modes p) -> mode_ok (pi_help_struct p) m).
+  (forall m, In m (pi_modes p) -> mode_ok (pi_help_struct p) m) /\
+  (* ... and what `exactly help PHASE instructions` / `exactly help instructions` actually display *)
+  agree (pi_accepted p) (pi_help_rendered p) /\ agree (pi_accepted p) (pi_help_rendered_all p).
 
 (** instructions of suite sections: documented by the section itself or by the phase it refers to *)
 Definition suite_ok (i : inventory) (s : suite_inv) : Prop :=
@@ -56,7 +58,9 @@ Definition suite_ok (i : inventory) (s : suite_inv) : Prop :=
 Definition entity_ok (i : inventory) (e : entity_inv) : Prop :=
   agree (ei_accepted e) (ei_help_struct e) /\
   (forall n, In n (ei_accepted e) -> has_successful_run (inv_requests i) (request_for_entity (ei_type e) n)) /\
-  (forall m, In m (ei_modes e) -> mode_ok (ei_help_struct e) m).
+  (forall m, In m (ei_modes e) -> mode_ok (ei_help_struct e) m) /\
+  (* ... and what `exactly help TYPE` actually displays *)
+  agree (ei_accepted e) (ei_help_rendered e).
 
 (** The whole property, over an inventory of the program. *)
 Definition C20_holds (i : inventory) : Prop :=
@@ -89,7 +93,8 @@ Definition mode_okb (documented : list string) (m : mode_obs) : bool :=
 Definition phase_okb (i : inventory) (p : phase_inv) : bool :=
   agreeb (pi_accepted p) (pi_help_struct p) &&
   forallb (fun n => has_successful_runb (inv_requests i) (request_for_instruction (pi_name p) n)) (pi_accepted p) &&
-  forallb (mode_okb (pi_help_struct p)) (pi_modes p).
+  forallb (mode_okb (pi_help_struct p)) (pi_modes p) &&
+  agreeb (pi_accepted p) (pi_help_rendered p) && agreeb (pi_accepted p) (pi_help_rendered_all p).
 
 Definition suite_okb (i : inventory) (s : suite_inv) : bool :=
   agreeb (si_accepted s) (suite_documented i s) &&
@@ -101,7 +106,8 @@ Definition suite_okb (i : inventory) (s : suite_inv) : bool :=
 Definition entity_okb (i : inventory) (e : entity_inv) : bool :=
   agreeb (ei_accepted e) (ei_help_struct e) &&
   forallb (fun n => has_successful_runb (inv_requests i) (request_for_entity (ei_type e) n)) (ei_accepted e) &&
-  forallb (mode_okb (ei_help_struct e)) (ei_modes e).
+  forallb (mode_okb (ei_help_struct e)) (ei_modes e) &&
+  agreeb (ei_accepted e) (ei_help_rendered e).
 
 Definition C20_holdsb (i : inventory) : bool :=
   forallb (phase_okb i) (inv_phases i) &&
@@ -222,14 +228,16 @@ Definition lookup_result_eqb (x y : lookup_result) : bool :=
   | _, _ => false
   end.
 
-(** does the command line ask for something the help LISTS (decided on the observed help lists, not on the model
-    of the parser)? *)
+(** does the command line ask for something the help LISTS or the program ACCEPTS (decided on the observed lists, not
+    on the model of the parser)?  Such a request must be displayed successfully. *)
 Definition asks_for_listed (i : inventory) (argv : list string) : bool :=
   match argv with
   | [x] => existsb (fun p => String.eqb (pi_name p) x) (inv_phases i)
            || existsb (fun e => String.eqb (ei_type e) x) (inv_entities i)
-  | [x; n] => existsb (fun p => String.eqb (pi_name p) x && mem n (pi_help_struct p)) (inv_phases i)
-              || existsb (fun e => String.eqb (ei_type e) x && mem n (ei_help_struct e)) (inv_entities i)
+  | [x; n] => existsb (fun p => String.eqb (pi_name p) x && (mem n (pi_help_struct p) || mem n (pi_accepted p)))
+                      (inv_phases i)
+              || existsb (fun e => String.eqb (ei_type e) x && (mem n (ei_help_struct e) || mem n (ei_accepted e)))
+                         (inv_entities i)
               || (String.eqb x (kw_suite (inv_kw i)) && existsb (fun s => String.eqb (si_name s) n) (inv_suite_sections i))
   | [x; s; n] => String.eqb x (kw_suite (inv_kw i))
                  && existsb (fun si => String.eqb (si_name si) s && mem n (si_help_struct si)) (inv_suite_sections i)
@@ -250,7 +258,9 @@ Definition check_case (i : inventory) (c : case) : bool * bool :=
       (match model_accepts_case i phase name with Some b => Bool.eqb b obs_accepted | None => false end,
        (* accepted by the running parser iff listed by the help of that phase *)
        match find_phase i phase with
-       | Some p => Bool.eqb obs_accepted (mem name (pi_help_struct p))
+       | Some p => Bool.eqb obs_accepted (mem name (pi_help_struct p)) &&
+                   Bool.eqb obs_accepted (mem name (pi_help_rendered p)) &&        (* `exactly help PHASE instructions` *)
+                   Bool.eqb obs_accepted (mem name (pi_help_rendered_all p))      (* `exactly help instructions` *)
        | None => false
        end)
   | CAcceptSuite section name obs_accepted =>
@@ -266,7 +276,8 @@ Definition check_case (i : inventory) (c : case) : bool * bool :=
   | CEntity type name obs_accepted =>
       match find (fun e => String.eqb (ei_type e) type) (inv_entities i) with
       | Some e => (Bool.eqb obs_accepted (mem name (ei_accepted e)),      (* the run agrees with the inventory *)
-                   Bool.eqb obs_accepted (mem name (ei_help_struct e)))   (* accepted iff listed by the help *)
+                   Bool.eqb obs_accepted (mem name (ei_help_struct e)) &&   (* accepted iff listed by the help ... *)
+                   Bool.eqb obs_accepted (mem name (ei_help_rendered e)))   (* ... and displayed by `exactly help TYPE` *)
       | None => (false, false)
       end
   | CHref h obs_count =>
